@@ -54,16 +54,15 @@ Definition rust_of_d (d : dty) : rty := match d with DInt => RI64 | DFloat => RF
 
 (* Rust's type of the emitted binary operation = the documented type, provided the emitter's
    exponent classification (on the IR) agrees with the checker's (on the AST) *)
-Lemma rust_bin_spec o dl dr r ltail :
-  (o = OPow -> bad_exp r = false /\
-               ~ (doc_bin OPow dl dr (extract_ast r) = DFloat /\ dl = DFloat /\ ltail = true)) ->
-  rust_binop (ast_to_ir (aop_ast o)) (ir_of (dty_res dl)) (ir_of (dty_res dr)) (fst (lower r)) ltail
+Lemma rust_bin_spec o dl dr r :
+  (o = OPow -> bad_exp r = false) ->
+  rust_binop (ast_to_ir (aop_ast o)) (ir_of (dty_res dl)) (ir_of (dty_res dr)) (fst (lower r))
              (rust_of_d dl) (rust_of_d dr)
   = Some (rust_of_d (doc_bin o dl dr (extract_ast r))).
 Proof.
   intros Hbad.
   destruct o; try (destruct dl, dr; reflexivity).
-  destruct (Hbad eq_refl) as [Hb Hcast]. unfold bad_exp in Hb.
+  pose proof (Hbad eq_refl) as Hb. unfold bad_exp in Hb.
   destruct dl, dr; cbn.
   - (* int ** int *)
     unfold pow_kind_ir, core_PowExponentKind_from_literal_info; cbn.
@@ -75,12 +74,10 @@ Proof.
       replace (n >=? 0) with false by lia. reflexivity.
   - (* int ** float *) reflexivity.
   - (* float ** int *)
-    destruct ltail; [exfalso; apply Hcast; repeat split; reflexivity|].
     unfold pow_kind_ir, core_PowExponentKind_from_literal_info; cbn.
     destruct (match fst (lower r) with IInt n => Some n | INeg (IInt n) => Some (- n) | _ => None end) as [n|];
       [destruct (n >=? 0)|]; reflexivity.
-  - (* float ** float *)
-    destruct ltail; [exfalso; apply Hcast; repeat split; reflexivity|]. reflexivity.
+  - (* float ** float *) reflexivity.
 Qed.
 
 (* all phases agree with the documented type, for expression trees of any depth *)
@@ -109,11 +106,7 @@ Proof.
     split; [intros Hpf; apply andb_prop in Hpf; destruct Hpf as [Hpl Hpr];
             rewrite (L2 Hpl), (R2 Hpr); apply cst_arith_spec|].
     split; [apply lower_bin_spec|].
-    apply rust_bin_spec. intros ->.
-    apply andb_prop in Hp. destruct Hp as [Hp1 Hp2].
-    split; [now apply negb_true_iff in Hp1|].
-    apply negb_true_iff in Hp2. unfold cast_pow in Hp2. rewrite <- extract_is_doc_literal in Hp2.
-    intros (Hf & Hd & Ht). rewrite Hf, Hd, Ht in Hp2. discriminate.
+    apply rust_bin_spec. intros ->. now apply negb_true_iff in Hp.
 Qed.
 
 (* whatever type the const evaluator assigns is the documented one (Paren included: it rejects) *)
@@ -148,15 +141,14 @@ Qed.
 
 (* comparisons: bool in the checker, and what is emitted (`l op r` after promotion) is bool for
    Rust, mixed int/float included *)
-Lemma cmp_spec o l r : clean l = true -> clean r = true -> cast_lt o l r = false ->
+Lemma cmp_spec o l r : clean l = true -> clean r = true ->
   chk_cmp o (chk l) (chk r) = ResolvedType_Bool /\
   rust_ty (IBin (ast_to_ir (cop_ast o)) (fst (lower l)) (ir_of (chk l)) (fst (lower r)) (ir_of (chk r))) = Some RBool.
 Proof.
-  intros Hl Hr Hlt.
+  intros Hl Hr.
   destruct (phases_agree l Hl) as (L1 & _ & _ & L4). destruct (phases_agree r Hr) as (R1 & _ & _ & R4).
-  cbn [rust_ty]. rewrite L1, R1, L4, R4. unfold cast_lt in Hlt.
-  destruct o, (doc_ty l) eqn:Dl, (doc_ty r); try discriminate; try (split; reflexivity);
-    cbn; try rewrite (tail_cast_int l Hl Dl); try rewrite Hlt; split; reflexivity.
+  cbn [rust_ty]. rewrite L1, R1, L4, R4.
+  destruct o, (doc_ty l), (doc_ty r); split; reflexivity.
 Qed.
 
 (* every arithmetic tree over int/float operands has a numeric checker type (no side condition) *)
@@ -205,12 +197,18 @@ Proof.
   destruct o, var, (doc_ty e); cbn in *; try discriminate; split; reflexivity.
 Qed.
 
-Lemma cast_findings_refuted :
+(* regression witnesses of the repaired findings tail-cast-pow and tail-cast-lt: `(2.5 + a) ** x`
+   and `(x + a) < y` — the left operand's text ends in a cast, it is grouped, the emitted tokens
+   are Rust of the documented type *)
+Lemma tail_cast_findings_fixed :
   (let e := ABin OPow (AParen (ABin OAdd AFloatLit (AVar false))) (AVar true) in
-   clean e = false /\ chk e = ResolvedType_Float /\ rust_ty (fst (lower e)) = None) /\
+   clean e = true /\ chk e = ResolvedType_Float /\ rust_ty (fst (lower e)) = Some RF64 /\
+   tail_cast (fst (lower (AParen (ABin OAdd AFloatLit (AVar false))))) = true /\
+   emit_shape OPow (AParen (ABin OAdd AFloatLit (AVar false))) (AVar true) = [51; 0; 0; 1]) /\
   (let l := AParen (ABin OAdd (AVar true) (AVar false)) in let r := AVar true in
-   cast_lt CLt l r = true /\ chk_cmp CLt (chk l) (chk r) = ResolvedType_Bool /\
-   rust_ty (IBin (ast_to_ir (cop_ast CLt)) (fst (lower l)) (ir_of (chk l)) (fst (lower r)) (ir_of (chk r))) = None).
+   tail_cast (fst (lower l)) = true /\ group_lhs NumericOp_Lt false (fst (lower l)) = true /\
+   chk_cmp CLt (chk l) (chk r) = ResolvedType_Bool /\
+   rust_ty (IBin (ast_to_ir (cop_ast CLt)) (fst (lower l)) (ir_of (chk l)) (fst (lower r)) (ir_of (chk r))) = Some RBool).
 Proof. cbv zeta. repeat split; reflexivity. Qed.
 
 (* regression witnesses of the repaired findings cast-method-pow and cast-lt *)
@@ -218,7 +216,6 @@ Lemma cast_findings_fixed :
   (let e := ABin OPow (AVar false) (AVar false) in
    clean e = true /\ chk e = ResolvedType_Float /\ rust_ty (fst (lower e)) = Some RF64) /\
   (let l := AVar false in let r := AVar true in
-   cast_lt CLt l r = false /\
    rust_ty (IBin (ast_to_ir (cop_ast CLt)) (fst (lower l)) (ir_of (chk l)) (fst (lower r)) (ir_of (chk r))) = Some RBool).
 Proof. cbv zeta. repeat split; reflexivity. Qed.
 
@@ -239,15 +236,17 @@ Lemma emit_shape_spec o l r : clean (ABin o l r) = true ->
   emit_shape o l r =
   [ match o with ODiv => 2 | OMod => 30 + isf | OFloorDiv => 40 + isf | OPow => 50 + isf | _ => 1 end;
     bcode (match d, dl with DFloat, DInt => true | _, _ => false end);
-    bcode (match d, dr with DFloat, DInt => true | _, _ => false end) ].
+    bcode (match d, dr with DFloat, DInt => true | _, _ => false end);
+    bcode (match o with OPow => (match d, dl with DFloat, DInt => true | _, _ => false end) || tail_cast (fst (lower l)) | _ => false end) ].
 Proof.
   intros Hc. cbv zeta. cbn [clean] in Hc.
   apply andb_prop in Hc. destruct Hc as [Hc Hp]. apply andb_prop in Hc. destruct Hc as [Hcl Hcr].
   destruct (phases_agree l Hcl) as (L1 & _). destruct (phases_agree r Hcr) as (R1 & _).
-  unfold emit_shape. rewrite L1, R1. cbn [doc_ty]. rewrite <- extract_is_doc_literal.
+  unfold emit_shape, group_lhs. rewrite L1, R1. cbn [doc_ty]. rewrite <- extract_is_doc_literal.
+  generalize (tail_cast (fst (lower l))). intros g.
   destruct o; try (destruct (doc_ty l), (doc_ty r); reflexivity).
   (* ** *)
-  apply andb_prop in Hp. destruct Hp as [Hp1 _]. apply negb_true_iff in Hp1. unfold bad_exp in Hp1.
+  apply negb_true_iff in Hp. unfold bad_exp in Hp.
   destruct (doc_ty l), (doc_ty r); try reflexivity; cbn;
     unfold pow_kind_ir, core_PowExponentKind_from_literal_info; cbn.
   all: try (destruct (match fst (lower r) with IInt n => Some n | INeg (IInt n) => Some (- n) | _ => None end) as [n|];
